@@ -31,6 +31,8 @@ func runC03(p *Prog, r *Report) {
 	matchesGates(p, r, "C03.R3")
 	c03R4(p, r, "C03.R4", []string{"builder", "generator"})
 	accessibilityRule(p, r, "C03.R5")
+	accessibleRule(p, r, "C03.R5b")
+	typeClassificationRule(p, r, "C03.R7")
 	// R6
 	r.Rule("C03.R6", "generator.Generate returns (nil, err) for a failing converter before any file is rendered (shared with C17.O4)", 1)
 	if _, sf := needFunc(p, r, "generator.Generate"); sf != nil {
